@@ -108,6 +108,11 @@ def check_optimal(case, ctx):
         "ranking_misses_component" if missing else "no_missing_component"]
     ctx.stats.case(case, nt, labels)
     if status == "usage":
+        # "optimize=True with all rankings requested" is a documented usage error of the CPLEX model only: without
+        # CPLEX every configuration answers through the free solver, whatever the flag
+        if case["env"] == "absent":
+            raise Violation("%s without cplex (at most one ranking: %s) fails with %s instead of answering through the "
+                            "free solver: %s" % (case["config"], case["at_most_one"], type(val).__name__, val))
         return
     if status != "ok":
         raise Violation("%s (%s) refused the instance: %r" % (case["config"], case["env"], val))
@@ -161,7 +166,8 @@ def cycle_tie_cases(draw, tier):
 
 def subchecks():
     return [
-        HypSub("optimal_absent", lambda t: cases_for(t, ABSENT, "absent", 7, 9), check_optimal, 5000, 60000),
+        HypSub("optimal_absent", lambda t: cases_for(t, ABSENT, "absent", 7, 9, flags=(True, True, False)),
+               check_optimal, 5000, 60000),
         HypSub("optimal_standin", lambda t: cases_for(t, STANDIN, "standin", 5, 6), check_optimal, 5000, 50000),
         HypSub("cycles_vs_ties", cycle_tie_cases, check_optimal, 2000, 30000),
         HypSub("all_optima_standin", lambda t: cases_for(t, ["cplex_noopt", "exact_noopt"], "standin", 5, 6, (False,),
